@@ -466,6 +466,73 @@ fn check_partition(c: &OCase, obs: &mut Obs) -> CheckResult {
     Ok(())
 }
 
+/// Wide integers: the same integer-valued series shifted by a base beyond 2^53 (i64 / Option<i64>).
+/// Order statistics depend on the order only, so ranks and arg-partitions must be those of the small
+/// offsets and value partitions must be base + the offsets' partition.
+fn check_wide(c: &OCase, obs: &mut Obs) -> CheckResult {
+    if c.x.iter().flatten().any(|v| v.fract() != 0.0 || v.abs() > 1e6) {
+        obs.class("not_integer_valued_skipped");
+        return Ok(());
+    }
+    const BASES: [i64; 4] = [1 << 53, 1 << 60, -(1 << 61), 1_700_000_000_123_456_789];
+    let base = BASES[(c.k + c.x.len()) % 4];
+    let (pct, rev, sort) = (c.flags & 1 != 0, c.flags & 2 != 0, c.flags & 8 != 0);
+    let off: Vec<Option<i64>> = c.x.iter().map(|v| v.map(|v| v as i64)).collect();
+    let wide: Vec<Option<i64>> = off.iter().map(|v| v.map(|v| v + base)).collect();
+    let k = c.k;
+    let ra: Vec<f64> = off.vrank(pct, rev);
+    let rb: Vec<f64> = wide.vrank(pct, rev);
+    if ra.iter().map(|v| v.to_bits()).collect::<Vec<_>>() != rb.iter().map(|v| v.to_bits()).collect::<Vec<_>>() && !(ra.iter().zip(rb.iter()).all(|(a, b)| (a.is_nan() && b.is_nan()) || a == b)) {
+        return fail("wide:vrank", format!("vrank(pct {}, rev {}) of base {} + {:?} = {:?}, of the offsets alone {:?}", pct, rev, base, off, rb, ra));
+    }
+    let aa: Vec<i32> = Iterator::collect(off.varg_partition(k, true, rev));
+    let ab: Vec<i32> = Iterator::collect(wide.varg_partition(k, true, rev));
+    // ties may be ordered differently; compare the values the indices refer to
+    let val = |idx: &Vec<i32>| -> Vec<Option<i64>> { idx.iter().map(|i| if *i < 0 { None } else { off[*i as usize] }).collect() };
+    if val(&aa) != val(&ab) {
+        return fail("wide:varg_partition", format!("varg_partition(k {}, sorted, rev {}) of base {} + {:?} = {:?}, of the offsets alone {:?}", k, rev, base, off, ab, aa));
+    }
+    let au: Vec<i32> = Iterator::collect(wide.varg_partition(k, false, rev));
+    let mut vu = val(&au);
+    let mut vs = val(&aa);
+    let key = |v: &Option<i64>| v.map(|x| (0, x)).unwrap_or((1, 0));
+    vu.sort_by_key(key);
+    vs.sort_by_key(key);
+    if vu != vs {
+        return fail("wide:varg_partition:unsorted", format!("varg_partition(k {}, unsorted, rev {}) of base {} + {:?} = {:?}: not the same multiset as for the offsets ({:?})", k, rev, base, off, au, aa));
+    }
+    let pa: Vec<Option<i64>> = Iterator::collect(off.vpartition(k, sort, rev));
+    let pb: Vec<Option<i64>> = Iterator::collect(wide.vpartition(k, sort, rev));
+    let mut pa2: Vec<Option<i64>> = pa.iter().map(|v| v.map(|v| v + base)).collect();
+    let mut pb2 = pb.clone();
+    if !sort {
+        pa2.sort_by_key(key);
+        pb2.sort_by_key(key);
+    }
+    if pa2 != pb2 {
+        return fail("wide:vpartition", format!("vpartition(k {}, sort {}, rev {}) of base {} + {:?} = {:?}, expected base + {:?}", k, sort, rev, base, off, pb, pa));
+    }
+    // plain i64 (no nulls)
+    if off.iter().all(|v| v.is_some()) {
+        let o: Vec<i64> = off.iter().map(|v| v.unwrap()).collect();
+        let w: Vec<i64> = o.iter().map(|v| v + base).collect();
+        let (ra, rb): (Vec<f64>, Vec<f64>) = (o.vrank(pct, rev), w.vrank(pct, rev));
+        if ra != rb {
+            return fail("wide:vrank:i64", format!("vrank of base {} + {:?} = {:?}, of the offsets {:?}", base, o, rb, ra));
+        }
+        if k + 1 <= o.len() {
+            let (a, b): (Vec<i32>, Vec<i32>) = (Iterator::collect(o.varg_partition(k, true, rev)), Iterator::collect(w.varg_partition(k, true, rev)));
+            if a.iter().map(|i| o[*i as usize]).collect::<Vec<_>>() != b.iter().map(|i| o[*i as usize]).collect::<Vec<_>>() {
+                return fail("wide:varg_partition:i64", format!("varg_partition(k {}, sorted, rev {}) of base {} + {:?} = {:?}, of the offsets {:?}", k, rev, base, o, b, a));
+            }
+        }
+    }
+    let distinct_neighbours = off.iter().flatten().any(|a| off.iter().flatten().any(|b| a != b && (base as f64 + *a as f64) == (base as f64 + *b as f64)));
+    obs.set_nontrivial(distinct_neighbours && off.len() >= 3);
+    obs.class_if(distinct_neighbours, "f64_collapses_neighbours");
+    Ok(())
+}
+
 fn main() {
     let _ = Fail { sig: String::new(), detail: String::new() };
     let mut p = Property::new(
@@ -478,5 +545,6 @@ fn main() {
     p.add(sub("vpercentile_of", 10000, 300000, o_case, check_percentile));
     p.add(sub("vrank", 20000, 600000, o_case, check_rank));
     p.add(sub("partition", 20000, 600000, o_case, check_partition));
+    p.add(sub("wide_integers", 10000, 300000, o_case, check_wide));
     main_for(p);
 }
